@@ -252,7 +252,7 @@ def harness(name, cfg, flavour, defines=(), link=()):
             o = exe + "." + os.path.basename(s) + ".o"
             _run(base + ["-c", s, "-o", o], what="compile harness " + os.path.basename(s) + " [" + cfg + "/" + flavour + "]")
             return o
-        with ThreadPoolExecutor(max_workers=4) as ex:
+        with ThreadPoolExecutor(max_workers=8) as ex:
             objs = list(ex.map(comp, srcs))
         fl = FLAVOURS[flavour]
         _run([fl["cxx"]] + fl["flags"] + objs + [lib] + list(link) + ["-lpthread", "-ldl", "-o", exe + ".tmp"],
